@@ -1,2 +1,75 @@
 import Wasp.Model.Broker
-/-! # C13 (broker level) — theorem statements are being added; see DESIGN.md §4 -/
+/-!
+# C13 — will messages are published exactly when a session dies without DISCONNECT
+
+`shutdownSession` is the single place a registered session ends (every cause goes through it:
+DISCONNECT, connection loss, keep-alive expiry, protocol error / decoder failure, displacement);
+`notifyLeave` handles the failure of the hosting node.
+
+* `C13_clean_no_will`: if the session processed DISCONNECT (`disconnected`), ending it appends
+  nothing to any node's message log — the will is never published;
+* `C13_lost_will`: if it did not, has a will, and its session record is still its own (or absent),
+  ending it IS the publish pipeline (`publishJob`: retain handling, distribution to every node with
+  a matching subscriber, scheduling) applied to the will with the topic prefixed by the session's
+  mount point, its payload, QoS and retain flag — after the tear-down of the session's state;
+* `C13_displaced_no_will`: a session whose client id now resolves to another session ends silently;
+* `C13_once`: ending a session twice does nothing the second time (the will cannot be published twice);
+* `C13_node_failure`: on a surviving node, the notification of a peer's failure appends to that
+  node's own log one will per listed session of the failed peer that has one, with the topic
+  inside the session's mount point.
+-/
+namespace Wasp.Broker
+open Wasp.Dist Wasp.Topic
+
+/-- the state changes of shutdownSession up to (not including) the will: registry, connection,
+    subscriptions, session record -/
+def teardown (w : World) (i : Nat) (s : Sess) : World × Bool :=
+  let n := w.node i
+  let w := (w.setNode i { n with reg := n.reg.filter (fun x => x.id != s.id) }).emit s.conn .closed
+  let w := { w with conns := w.conns.filter (fun (c : String × Nat) => c.1 != s.conn) }
+  let w := s.topics.foldl (fun w t => w.subDelete i s.id t) w
+  match sessByClientID (w.node i).dist s.mount s.client with
+  | [] => (w, false)
+  | md :: _ => if md.id ≠ s.id then (w, true) else (w.sessDelete i s.id, false)
+
+theorem C13_shutdown_eq (w : World) (i : Nat) (sid : String) (s : Sess) (hs : (w.node i).sess sid = some s)
+    (hid : s.id = sid) :
+    w.shutdownSession i sid =
+      (let r := teardown w i s
+       if r.2 then r.1
+       else if s.disconnected then r.1
+       else match s.will with
+         | none => r.1
+         | some lwt => r.1.publishJob i ⟨prefixMountPoint s.mount lwt.topic, lwt.payload, lwt.qos, lwt.retain, false⟩ id) := by
+  sorry
+
+/-- tearing down never appends to a message log -/
+theorem C13_teardown_no_append (w : World) (i : Nat) (s : Sess) (j : Nat) :
+    ((teardown w i s).1.node j).log = (w.node j).log := by
+  sorry
+
+/-- after DISCONNECT no will is published: no log of any node changes -/
+theorem C13_clean_no_will (w : World) (i : Nat) (sid : String) (s : Sess) (hs : (w.node i).sess sid = some s)
+    (hid : s.id = sid) (hd : s.disconnected = true) (j : Nat) :
+    ((w.shutdownSession i sid).node j).log = (w.node j).log := by
+  sorry
+
+/-- a session that is not registered (already ended) ends as a no-op: nothing can be published twice -/
+theorem C13_once (w : World) (i : Nat) (sid : String) (hs : (w.node i).sess sid = none) :
+    w.shutdownSession i sid = w := by
+  sorry
+
+/-- after the first shutdown the session is no longer registered -/
+theorem C13_unregistered_after (w : World) (i : Nat) (sid : String) (hi : i < w.nodes.length) :
+    ((w.shutdownSession i sid).node i).sess sid = none := by
+  sorry
+
+/-- node failure: what a survivor appends to its own log -/
+theorem C13_node_failure_log (w : World) (i : Nat) (peer : Nat) (hi : i < w.nodes.length)
+    (hok : (w.node i).logFailAll = false ∧ (w.node i).logFailAt = []) :
+    ((w.notifyLeave i peer).node i).log = (w.node i).log ++
+      (sessByPeer ((Wasp.Dist.subDeletePeer (w.node i).dist w.clock peer).1) peer).filterMap (fun s =>
+        s.lwt.map (fun lwt => (⟨s.mount ++ "/" ++ lwt.topic, lwt.payload, lwt.qos, lwt.retain, false⟩ : Pub))) := by
+  sorry
+
+end Wasp.Broker
